@@ -2,7 +2,8 @@
    Statements only; proofs are in Proofs/CounterfactualProofs.v and Proofs/HourlyFlowProofs.v; the models are
    Model/Rows.v + Model/PredictRows.v (daily / billing row pipeline), Model/HourlyFlow.v (hourly pipeline, DST
    stages of Model/Dst.v) and Model/CounterfactualFlows.v (relations, CalTRACK hourly flow). *)
-From Coq Require Import ZArith List Bool Arith.
+From Coq Require Import ZArith QArith List Bool Arith.
+From V Require Import Model.Resample Model.TempAgg.
 From V Require Import Model.Dst Model.DstRun Model.Rows Model.PredictRows Model.HourlyFlow Model.CounterfactualFlows
                       Model.CounterfactualRun Proofs.CounterfactualProofs Proofs.HourlyFlowProofs.
 Import ListNotations.
@@ -78,6 +79,61 @@ Proof.
   repeat split; try (eexists; split; [vm_compute; left; reflexivity | split; reflexivity]).
   intros p [o [Ho [Ht Hp]]]. vm_compute in Ho.
   destruct Ho as [<-|[<-|[<-|[]]]]; cbn in Ht, Hp; discriminate.
+Qed.
+
+(* ================================================================== daily data class: temperature of a meter day == *)
+
+(* with the meter-day index a function of the stamps of the frame, the stage (index + TempAgg aggregation) is a function of
+   weather and calendar only *)
+Theorem C05_daily_stage_ni : forall day_index tol (a b : list frow), same_weather_frows a b ->
+  daily_stage day_index tol a = daily_stage day_index tol b.
+Proof. exact daily_stage_ni_l. Qed.
+Print Assumptions C05_daily_stage_ni.
+
+(* whatever the two meter-day indexes are (usage supplied / blank / another null pattern): a meter day that is in both and
+   is followed by the same meter day in both gets the same temperature row — usage can only act through the index *)
+Theorem C05_daily_window_ni : forall tol temps idx idx' lo r r' hi,
+  NoDup idx -> NoDup idx' ->
+  In (lo, r) (day_temps tol idx temps) -> In (lo, r') (day_temps tol idx' temps) ->
+  next_in idx lo hi -> next_in idx' lo hi -> r = r'.
+Proof. exact day_window_ni_l. Qed.
+Print Assumptions C05_daily_window_ni.
+
+(* the index as coded reads which rows carry a reading: unchanged when the same rows do (scaled, negated, shuffled) *)
+Theorem C05_daily_stage_as_coded_partial : forall fc tol (a b : list frow), same_weather_frows a b ->
+  same_usage_presence a b -> daily_stage_as_coded fc tol a = daily_stage_as_coded fc tol b.
+Proof. exact daily_stage_as_coded_partial_l. Qed.
+Print Assumptions C05_daily_stage_as_coded_partial.
+
+(* refutation for the unchanged code (finding C05-K4): hourly weather from 06:00 of day 0, one reading per day at midnight
+   of days 1 to 4; blanking the reading of day 2 puts that day's filler row at 06:00 (the clock of the first row of the
+   frame), and day 1 — whose own reading is untouched — now averages 30 hours instead of 24 *)
+Definition k4_frame (blank2 : bool) : list frow :=
+  map (fun k => let s := (360 + 60 * Z.of_nat k)%Z in
+                (s, (if (s mod 1440 =? 0)%Z && negb (blank2 && (s =? 2880)%Z) then Some 1%Q else None),
+                 Some (inject_Z ((s / 60) mod 24)))) (seq 0 96).
+Theorem C05_daily_stage_as_coded_refuted : exists (a b : list frow) r r',
+  same_weather_frows a b /\
+  In (1440%Z, r) (daily_stage_as_coded FrameStart None a) /\ In (1440%Z, r') (daily_stage_as_coded FrameStart None b) /\
+  t_notnull r = Some 24%Z /\ t_notnull r' = Some 30%Z.
+Proof.
+  exists (k4_frame false), (k4_frame true). eexists. eexists.
+  split; [vm_compute; reflexivity|].
+  split; [vm_compute; right; left; reflexivity|]. split; [vm_compute; right; left; reflexivity|].
+  split; reflexivity.
+Qed.
+Print Assumptions C05_daily_stage_as_coded_refuted.
+
+(* with the filler days on the readings' clock (C05-4.diff) the same witness keeps day 1's window *)
+Example C05_daily_stage_reading_clock_witness :
+  meter_index_as_coded FrameStart (map f_stamp (k4_frame true))
+     (map (fun r => match f_obs r with Some _ => true | None => false end) (k4_frame true)) = [360; 1440; 3240; 4320; 5760]%Z /\
+  meter_index_as_coded ReadingClock (map f_stamp (k4_frame true))
+     (map (fun r => match f_obs r with Some _ => true | None => false end) (k4_frame true)) = [0; 1440; 2880; 4320; 5760]%Z /\
+  exists r, In (1440%Z, r) (daily_stage_as_coded ReadingClock None (k4_frame true)) /\ t_notnull r = Some 24%Z.
+Proof.
+  split; [vm_compute; reflexivity|]. split; [vm_compute; reflexivity|].
+  eexists. split; [vm_compute; right; left; reflexivity | reflexivity].
 Qed.
 
 (* ================================================================== hourly ================================ *)
